@@ -1124,16 +1124,34 @@ func (r *FnRun) stringCompare(st *State, op token.Token, a, b *StructVal) Val {
 			return Not(Eq(la, lb))
 		}
 	}
-	// general: uninterpreted predicate over (data,len) pairs and M8
-	args := []Term{st.memArr("M8"), a.F[0].(Term), la, b.F[0].(Term), lb}
-	eq := Term{app("streq", args...), BoolSort()}
+	// general: strings are compared through an (uninterpreted) rank of their
+	// contents: equal contents <=> equal rank, lexicographic order = rank order
+	ra, rb := strRank(st.memArr("M8"), a), strRank(st.memArr("M8"), b)
 	switch op {
 	case token.EQL:
-		return eq
+		return Ident(ra, rb)
 	case token.NEQ:
-		return Not(eq)
+		return Not(Ident(ra, rb))
+	case token.LSS:
+		return Lt(ra, rb)
+	case token.LEQ:
+		return Le(ra, rb)
+	case token.GTR:
+		return Lt(rb, ra)
+	case token.GEQ:
+		return Le(rb, ra)
 	}
-	panic(unsupported("string ordering comparison in code"))
+	panic(unsupported("string operator " + op.String()))
+}
+
+// strRank: uninterpreted order-embedding of string contents.
+func strRank(m8 Term, s *StructVal) Term {
+	d, l := s.F[0].(Term), s.F[1].(Term)
+	name := "strrank"
+	if d.Sort.K == KInt {
+		name = "strrank_i"
+	}
+	return Term{app(name, m8, d, l), Sort{K: KInt, W: 64, Signed: true}}
 }
 
 func (r *FnRun) unop(st *State, x *ssa.UnOp) Val {
